@@ -621,3 +621,139 @@ Proof.
   - rewrite forallb_forall. intros y Hy. apply in_map_iff in Hy as (x & <- & Hx).
     rewrite Forall_forall in IH. apply IH; auto.
 Qed.
+
+(* ---------------------------------------------------------------------------------------------- *)
+(* 6. witnesses: the open finding (reserved first key) and the two repaired defects of the pinned tree *)
+
+Definition pref_hash (x : ev) (more : list ev) : ev := EHash (EAdd (SStr pref_key) :: x :: more).
+
+(* {"__pref":1} is a well-formed user hash; it is written as valid JSON and read back as AddRef(1) *)
+Theorem pref_read_as_ref :
+  json_wf_all (pref_hash (EAdd (SInt 1)) []) = true /\
+  stream_top (pref_hash (EAdd (SInt 1)) []) = Ok (render (pref_hash (EAdd (SInt 1)) [])) /\
+  json_valid (render (pref_hash (EAdd (SInt 1)) [])) = true /\
+  read (render (pref_hash (EAdd (SInt 1)) [])) = Ok [ERef 1].
+Proof. repeat split; vm_compute; reflexivity. Qed.
+
+(* {"__pref":"x"} and {"__pref":1,"b":2} make the reader fail *)
+Theorem pref_read_fails :
+  let e1 := pref_hash (EAdd (SStr [120%N])) [] in
+  let e2 := pref_hash (EAdd (SInt 1)) [EAdd (SStr [98%N]); EAdd (SInt 2)] in
+  json_wf_all e1 = true /\ stream_top e1 = Ok (render e1) /\ read (render e1) = Err /\
+  json_wf_all e2 = true /\ stream_top e2 = Ok (render e2) /\ read (render e2) = Err.
+Proof. repeat split; vm_compute; reflexivity. Qed.
+
+Theorem pref_first_key_refuted :
+  exists e, json_wf_all e = true /\
+            exists toks, stream_top e = Ok toks /\ json_valid toks = true /\ read toks <> Ok [json_image e].
+Proof.
+  exists (pref_hash (EAdd (SInt 1)) []). split; [reflexivity|].
+  exists (render (pref_hash (EAdd (SInt 1)) [])).
+  destruct pref_read_as_ref as (_ & Hs & Hv & Hr).
+  split; [exact Hs|]. split; [exact Hv|]. rewrite Hr. vm_compute. discriminate.
+Qed.
+
+(* pinned tree, before 1ed663c: [1,[],3] was written `[1,[]3]` *)
+Theorem json_invalid_refuted_pinned fit :
+  exists e, json_wf_all e = true /\
+            exists toks, stream_top_pinned fit e = Ok toks /\ json_valid toks = false.
+Proof.
+  exists (EArr [EAdd (SInt 1); EArr []; EAdd (SInt 3)]). split; [reflexivity|].
+  eexists. split; [vm_compute; reflexivity | vm_compute; reflexivity].
+Qed.
+
+(* ... and [1,{"a":2},3,4] was written `[1,{"a":2},3:4]` *)
+Theorem json_invalid_refuted_pinned_hash fit :
+  stream_top_pinned fit (EArr [EAdd (SInt 1); EHash [EAdd (SStr [97%N]); EAdd (SInt 2)]; EAdd (SInt 3); EAdd (SInt 4)])
+  = Ok [LBrack; TNum (NInt 1); Comma; LBrace; TStr [97%N]; Colon; TNum (NInt 2); RBrace; Comma; TNum (NInt 3);
+        Colon; TNum (NInt 4); RBrack].
+Proof. vm_compute. reflexivity. Qed.
+
+(* pinned tree, before 1f092e9: the float 1.0 (bits 0x3FF0000000000000) was written `1` and read back as the
+   Integer 1 *)
+Theorem float_kind_refuted_pinned :
+  exists e, json_wf_all e = true /\
+            exists toks, stream_top_pinned (fun _ => 1) e = Ok toks /\ read toks = Ok [EAdd (SInt 1)] /\
+                         json_image e <> EAdd (SInt 1).
+Proof.
+  exists (EAdd (SFloat 4607182418800017408)). split; [reflexivity|].
+  eexists. split; [vm_compute; reflexivity|]. split; [vm_compute; reflexivity | vm_compute; discriminate].
+Qed.
+
+(* hence the round-trip statement without the guard is false of the code *)
+Theorem json_roundtrip_statement_refuted :
+  ~ (forall e, json_wf_all e = true -> exists toks, stream_top e = Ok toks /\ read toks = Ok [json_image e]).
+Proof.
+  intros H. destruct pref_read_as_ref as (Hwf & Hs & _ & Hr).
+  destruct (H _ Hwf) as (toks & Hs' & Hr').
+  assert (Ht : toks = render (pref_hash (EAdd (SInt 1)) [])) by congruence.
+  subst toks. rewrite Hr in Hr'. vm_compute in Hr'. discriminate Hr'.
+Qed.
+
+(* ---------------------------------------------------------------------------------------------- *)
+(* 7. the reader's fuel is adequate: on EVERY token list (valid JSON or not) the model of JsonToData
+      terminates within the fuel `read` gives it *)
+
+Lemma next_token_length toks : forall t r, next_token toks = Some (t, r) -> (length r < length toks)%nat.
+Proof.
+  induction toks as [|x toks IH]; intros t r H; [discriminate H|].
+  cbn [next_token] in H. cbn [length].
+  destruct x; try (injection H as <- <-; lia); apply IH in H; lia.
+Qed.
+
+Definition jv_good (toks : list jtoken) (r : res (list ev * list jtoken)) : Prop :=
+  match r with
+  | Ok (_, rest) => (length rest <= length toks)%nat
+  | OutOfFuel => False
+  | _ => True
+  end.
+
+Lemma good_bind toks toks' (r : res (list ev * list jtoken))
+      (k : list ev * list jtoken -> res (list ev * list jtoken)) :
+  jv_good toks' r -> (length toks' <= length toks)%nat ->
+  (forall evs rest, (length rest <= length toks')%nat -> jv_good toks (k (evs, rest))) ->
+  jv_good toks (bind r k).
+Proof.
+  destruct r as [[evs rest]| | |]; cbn [bind jv_good]; intros Hr Hle Hk; auto.
+Qed.
+
+Lemma jv_fuel : forall fuel toks, (length toks < fuel)%nat -> jv_good toks (jv fuel toks).
+Proof.
+  induction fuel as [|f IH]; intros toks Hlen; [lia|].
+  cbn [jv].
+  destruct (next_token toks) as [[t rest]|] eqn:Hnt; [|cbn [jv_good length]; lia].
+  apply next_token_length in Hnt.
+  assert (IHle : forall l, (length l <= length rest)%nat -> jv_good l (jv f l)) by (intros l Hl; apply IH; lia).
+  assert (Hseq : forall l (g : list ev -> list ev -> list ev), (length l <= length rest)%nat ->
+            jv_good toks (let* (inner, rest1) := jv f l in let* (tl, r) := jv f rest1 in Ok (g inner tl, r))).
+  { intros l g Hl. eapply good_bind; [apply IHle; exact Hl | lia |].
+    intros inner rest1 H1. eapply good_bind; [apply IHle; lia | lia |].
+    intros tl r H2. cbn [jv_good]. lia. }
+  assert (Hone : forall l (g : list ev -> list ev), (length l <= length rest)%nat ->
+            jv_good toks (let* (tl, r) := jv f l in Ok (g tl, r))).
+  { intros l g Hl. eapply good_bind; [apply IHle; exact Hl | lia |].
+    intros tl r H2. cbn [jv_good]. lia. }
+  destruct t; try (apply (Hone rest (fun tl => _ ++ tl)); lia); try exact I; try (cbn [jv_good]; lia).
+  - (* [ *) apply (Hseq rest (fun inner tl => EArr inner :: tl)). lia.
+  - (* { *)
+    destruct (more rest).
+    + destruct (next_token rest) as [[k rest1]|] eqn:Hk; [|exact I].
+      apply next_token_length in Hk.
+      destruct (is_pref k && more rest1).
+      * destruct (next_token rest1) as [[t2 rest2]|] eqn:H2; [|exact I].
+        apply next_token_length in H2.
+        destruct t2; try exact I.
+        destruct (num_int64 n); [|exact I].
+        destruct (next_token rest2) as [[t3 rest3]|] eqn:H3; [|exact I].
+        apply next_token_length in H3.
+        destruct t3; try exact I.
+        apply (Hone rest3 (fun tl => ERef z :: tl)). lia.
+      * apply (Hseq rest1 (fun inner tl => EHash (add_value k ++ inner) :: tl)). lia.
+    + apply (Hseq rest (fun inner tl => EHash inner :: tl)). lia.
+Qed.
+
+Theorem read_never_out_of_fuel toks : read toks <> OutOfFuel.
+Proof.
+  unfold read. pose proof (jv_fuel (S (length toks)) toks ltac:(lia)) as H.
+  destruct (jv (S (length toks)) toks) as [[evs r]| | |]; try discriminate. contradiction.
+Qed.
